@@ -231,6 +231,13 @@ func runCheck(repo, verif, prop, tier string, seed int, timeout time.Duration, s
 		}
 		rep.VC.obls = keepO
 	}
+	// obligations recorded as open findings are expected to stay undischarged: no second, longer attempt for them
+	skipRetry = map[string]bool{}
+	for _, f := range findings {
+		if f.Property == prop && f.Status == "open" {
+			skipRetry[f.Obligation] = true
+		}
+	}
 	solveReports(reps, scratch, timeout, 5)
 	for _, rep := range reps {
 		if rep.Err != nil {
@@ -378,6 +385,7 @@ func writeEvidence(verif, prop, tier string, seed int, outs []*oblOut, reps []*F
 	var oos []string
 	trusted := map[string]bool{}
 	havocked := map[string]bool{}
+	modelNotes := map[string]bool{}
 	for _, r := range reps {
 		if r.Err != nil {
 			oos = append(oos, shortKey(r.Key)+": "+r.Err.Error())
@@ -400,6 +408,9 @@ func writeEvidence(verif, prop, tier string, seed int, outs []*oblOut, reps []*F
 		for k := range r.VC.havocked {
 			havocked[k] = true
 		}
+		for k := range r.VC.modelNotes {
+			modelNotes[k] = true
+		}
 	}
 	tb := []string{
 		"golang.org/x/tools/go/ssa v0.29.0 (naive form) lowers /repo faithfully; govc's encoding of each SSA instruction",
@@ -415,6 +426,9 @@ func writeEvidence(verif, prop, tier string, seed int, outs []*oblOut, reps []*F
 	}
 	for _, k := range sortedKeys(havocked) {
 		assumptions = append(assumptions, "callee without contract, result havocked: "+k)
+	}
+	for _, k := range sortedKeys(modelNotes) {
+		assumptions = append(assumptions, k)
 	}
 	ev := map[string]interface{}{
 		"property_id": prop, "tier": tier, "seed": seed, "level": "proof", "wall_s": round3(wall), "violations": violations,
